@@ -72,7 +72,7 @@ func runPolCorrupt(c *PolCase) (res interface{}, herr error) {
 		case "version-4":
 			out = append(out, fVar(2, 4)...)
 		}
-		raw, must = out, "error"
+		raw = out // an unsupported snapshot version: refused by the library today; the property only requires "no panic"
 	case "policy-kind-99":
 		raw = append(append([]byte{}, snap...), fBytes(6, msg(fBytes(1, ruleW(predW(27), nil, nil)), fVar(2, 99)))...)
 	case "policy-no-kind":
